@@ -263,17 +263,32 @@ func (d *Decoder) readTypedList(tag byte) (interface{}, error) {
 		if grow {
 			// convert like a fixed-length element (int32 -> int16, *T -> T, ...)
 			elem := reflect.New(aryType.Elem()).Elem()
-			SetValue(elem, v)
+			d.setListElem(elem, v)
 			aryValue = reflect.Append(aryValue, elem)
 			holder.change(aryValue)
 		} else {
-			SetValue(aryValue.Index(j), v)
+			d.setListElem(aryValue.Index(j), v)
 		}
 	}
 
 	holder.done = true
 	holder.notify()
 	return holder, nil
+}
+
+// setListElem stores a decoded element in a typed list. A map element goes
+// through the decoder's memo of converted maps: the elements (of this and of
+// other lists, and the map fields) that refer to one map share one
+// conversion of it instead of each paying for, and owning, a copy.
+func (d *Decoder) setListElem(dest, v reflect.Value) {
+	if dest.Kind() == reflect.Map && v.IsValid() && UnpackPtrValue(v).Kind() == reflect.Map {
+		if d.mapConv == nil {
+			d.mapConv = make(map[_mapConversion]reflect.Value)
+		}
+		dest.Set(convertMapItemSeen(dest.Type(), v.Interface(), d.mapConv))
+		return
+	}
+	SetValue(dest, v)
 }
 
 //readUntypedList read untyped list
